@@ -13,7 +13,7 @@ import Generated.Tables
 * `epytext codeblock <u:s> <matches>` → pieces | `AssertionError`;  matches = `start-stop-kind,…` or `-`
 * `epytext doctestbody <u:s> (<start> <srcEnd> <stop> <0|1> <matches>)*` → pieces | `AssertionError`
 * `epytext plaintext <u:s>` → `<u:child>`
-* `epytext field <tag> <fn> <kind> <hasArg> <paramExists>` → `heading=… attr=… reported=… modelled=…`
+* `epytext field <tag> <fn> <kind> <hasArg> <paramExists> <attrKnown>` → `heading=… attr=0|shown|hidden reported=… modelled=…`
 * `epytext spaces` → code points below 0x3100 for which `pyIsSpace`
 `wordExtra` lists the non-ASCII characters of the text that Python's `\w` accepts. -/
 namespace Epytext
@@ -113,7 +113,7 @@ def parseKind : String → Option ObjKind
 
 def showOutcome (o : Outcome) : String :=
   "heading=" ++ (match o.heading with | some h => h.replace " " "_" | none => "-") ++
-  " attr=" ++ (if o.toAttr then "1" else "0") ++
+  " attr=" ++ (if o.toAttr then (if o.attrShown then "shown" else "hidden") else "0") ++
   " reported=" ++ (if o.reported then "1" else "0") ++
   " modelled=" ++ (if o.modelled then "1" else "0")
 
@@ -174,9 +174,9 @@ def handle (args : List String) : String :=
     match Proto.decodeStr t with
     | some s => " ".intercalate ((plaintextToStan s).map Proto.encodeStr)
     | none => "bad-op"
-  | ["field", tag, fn, kind, hasArg, ex] =>
+  | ["field", tag, fn, kind, hasArg, ex, known] =>
     match Fields.parseKind kind with
-    | some k => Fields.showOutcome (Fields.outcome tag fn k ⟨hasArg == "1", ex == "1"⟩)
+    | some k => Fields.showOutcome (Fields.outcome tag fn k ⟨hasArg == "1", ex == "1", known == "1"⟩)
     | none => "bad-op"
   | ["spaces"] =>
     Proto.showNatList ((List.range 0x3100).filter fun n => pyIsSpace (Char.ofNat n))
